@@ -4,7 +4,7 @@ import vcheck
 from vcheck import sh, BIN, REPO
 import c17
 
-GO_CMDS = ["gengrammar", "genlex", "h_parse", "h_crash"]
+GO_CMDS = ["gengrammar", "genlex", "h_parse", "h_crash", "h_query"]
 TRANSLATORS = ["gengrammar", "genlex"]
 COQ_PROJECTS = ["Grammar", "Lexer", "Engine"]
 TRUSTED = vcheck.STD_TRUSTED + [
@@ -28,7 +28,21 @@ def run(ctx):
     ctx.add_obligations(info)
     ctx.cov["checker_cmd"] = "coqc -Q coq/Engine BWEngine -Q coq/Grammar BWGrammar coq/Engine/Props/C08.v"
     thorough = ctx.tier == "thorough"
-    rows = crash(["-seed", str(ctx.seed), "-n", "40000" if thorough else "500", "-exhaust", "3" if thorough else "2"])
+    # statements with real join structure (OPTIONAL, anchor bindings, bounds, aliases) over their own graphs come from the
+    # planner family's statement generator; here only the outcome class matters
+    extra = os.path.join(ctx.work, "extra.jsonl")
+    with open(extra, "w") as f:
+        for fam, n in (("c03", 2500 if thorough else 250), ("c10", 2500 if thorough else 300), ("c14", 600 if thorough else 60)):
+            rc, out = sh([os.path.join(BIN, "h_query"), "-mode", "gen", "-family", fam, "-n", str(n), "-seed", str(ctx.seed)],
+                         cwd=REPO, env=vcheck.goenv(), timeout=1200)
+            if rc != 0:
+                raise vcheck.Broken("h_query -mode gen failed", out[-2000:])
+            for l in out.splitlines():
+                if l.startswith("{"):
+                    d = json.loads(l)
+                    if d.get("query"):
+                        f.write(json.dumps({"query": d["query"], "from": d.get("from"), "graph_texts": d.get("graph_texts")}) + "\n")
+    rows = crash(["-seed", str(ctx.seed), "-n", "40000" if thorough else "500", "-exhaust", "3" if thorough else "2", "-extra", extra])
     known = vcheck.known_findings("C08")
     hits = collections.Counter()
     reported = 0
